@@ -168,9 +168,22 @@ class Models(object):
                 if d.closed or not create:
                     return None
                 raise Unsupported("tuple key in open dict")
+            if isinstance(k, Obj):
+                # instances hash by identity unless their class says otherwise
+                eqm, hm = self.E.src.find_method(k.cls, "__eq__"), self.E.src.find_method(k.cls, "__hash__")
+                if eqm and not hm:
+                    raise PyRaise(ExcVal(TypeError, ("unhashable type",)))
+                if eqm or hm:
+                    raise Unsupported("dict key with a repository-defined __eq__/__hash__")
+                for e in d.entries:
+                    if e.key is k:
+                        return e
+                if d.closed or not create:
+                    return None
+                raise Unsupported("object key in an open dict")
             raise PyRaise(ExcVal(TypeError, ("unhashable key",)))
         for e in d.entries:
-            if isinstance(e.key, tuple):
+            if isinstance(e.key, (tuple, Obj)):
                 continue
             if self.E.decide(self.key_eq(e.key, k)):
                 return e
@@ -374,6 +387,13 @@ class Models(object):
         raise Unsupported("slice of %s" % type(o).__name__)
 
     # ------------------------------------------------------------------------------------------- attributes
+    def _opaque_attr(self, name):
+        """a symbolic reference of kind OBJ denotes a plain object() instance (that is what the concretiser replays): it has the
+        attributes of `object` and no others"""
+        if hasattr(object(), name):
+            raise Unsupported("attribute %s of an opaque object" % name)
+        raise PyRaise(ExcVal(AttributeError, (name,)))
+
     def getattr(self, o, name, default=ABSENT):
         E = self.E
         if isinstance(o, SV):
@@ -383,7 +403,7 @@ class Models(object):
                 return NativeMethod(E.ref_as_dict(o), name)
             if (name in LIST_METHODS or name in SET_METHODS) and E.decide(sym.is_ref(o)):
                 if E.decide(sym.is_kind(o, sym.K_OBJ)):
-                    raise Unsupported("attribute of a symbolic object reference")
+                    self._opaque_attr(name)
                 if name in LIST_METHODS and E.decide(sym.is_kind(o, sym.K_LIST)):
                     if name in ("append", "extend"):
                         return NativeMethod(E.ref_as_seq(o), name)
@@ -391,7 +411,9 @@ class Models(object):
                 if name in SET_METHODS and E.decide(sym.is_kind(o, sym.K_SET)):
                     raise Unsupported("method of a symbolic set")
             if E.decide(sym.is_kind(o, sym.K_OBJ)):
-                raise Unsupported("attribute of a symbolic object reference")
+                if default is not ABSENT and not hasattr(object(), name):
+                    return default
+                self._opaque_attr(name)
             if default is not ABSENT:
                 return default
             raise PyRaise(ExcVal(AttributeError, (name,)))
@@ -1381,6 +1403,9 @@ class Models(object):
         if isinstance(recv, re.Pattern):
             if name == "match":
                 return self.re_match(recv, args[0])
+            if name == "search" and not (recv.flags & re.MULTILINE) and "^" not in recv.pattern.replace("[^", ""):
+                # search language = any prefix followed by the match language (no anchor inside the pattern)
+                return self.re_match(recv, args[0], search=True)
             raise Unsupported("Pattern.%s" % name)
         if isinstance(recv, re.Match):
             return getattr(recv, name)(*args)
@@ -1425,15 +1450,18 @@ class Models(object):
         E.path.abstract = True       # ghost inputs: covers/counter-models of this path are not determined by the arguments
         return d
 
-    def re_match(self, pattern, v):
+    def re_match(self, pattern, v, search=False):
         E = self.E
         v = sym.concrete(v)
         if isinstance(v, str):
-            return pattern.match(v)
+            return pattern.search(v) if search else pattern.match(v)
         if isinstance(v, SV):
             if not E.decide(sym.is_str(v)):
                 raise PyRaise(ExcVal(TypeError, ("expected string or bytes-like object",)))
-            if E.decide(z3.InRe(sym.sstr(v), sym.rx_to_z3(pattern))):
+            lang = sym.rx_to_z3(pattern)
+            if search:
+                lang = z3.Concat(z3.Star(z3.AllChar(sym.RS)), lang)
+            if E.decide(z3.InRe(sym.sstr(v), lang)):
                 return SymMatch(pattern, sym.sstr(v))
             return None
         raise PyRaise(ExcVal(TypeError, ("expected string or bytes-like object",)))
